@@ -21,6 +21,7 @@ var guardedPool = map[string]string{
 }
 
 func propC13(c *Ctx) propInfo {
+	c.errflow(excC13E2, "liteapi/pool")
 	la := c.newLockAnalysis("liteapi/pool")
 	la.guardedBy("E9.K1-guarded-by", guardedPool, map[string]string{})
 	la.pairing("E9.K2-pairing")
@@ -611,4 +612,8 @@ func valueOf(in ssa.Instruction) ssa.Value {
 		return v
 	}
 	return nil
+}
+
+var excC13E2 = map[string]string{
+	"(*liteapi/pool.ConnPool).InitializeConnections$1$1 R-drop liteapi/pool.connect": "explicit '_': a server that cannot be reached yields a nil client, which the collecting loop skips (wrapper.cli == nil); the pool reports an error only when no server at all could be reached",
 }
